@@ -673,6 +673,7 @@ func FuzzC15(f *testing.F) {
 		f.Add(c15ValidFile(hx.MMeta{Layout: &ly}, w))
 	}
 	dir, _ := os.MkdirTemp("", "c15fuzz-")
+	f.Cleanup(func() { os.RemoveAll(dir) })
 	f.Fuzz(func(t *testing.T, data []byte) {
 		hx.Quiet()
 		if _, _, err := c15Pipeline(data, dir, map[string]string{"A": "b"}); err != nil {
